@@ -125,7 +125,7 @@ def auto_connect_runs(ctx):
     n = 0
     for k in range(ctx.pick(16, 400)):
         endian = "little" if k % 2 == 0 else "big"
-        ident = rand_identity(rng, typ=0xAC, port=6444, devid=rng.getrandbits(48) | 1)
+        ident = rand_identity(rng, typ=0xAC, port=6444, devid=[rng.getrandbits(48) | 1, rng.getrandbits(40) | 1, rng.getrandbits(16) | 1, (rng.getrandbits(40) << 8) | 1][k % 4])
         ip = "10.7.%d.%d" % (rng.randrange(256), rng.randrange(1, 255))
         tok, key = rng.randbytes(64), rng.randbytes(32)
         other_tok, other_key = rng.randbytes(64), rng.randbytes(32)
@@ -182,7 +182,49 @@ def auto_connect_runs(ctx):
         evs.append(e2e)
         traces.append({"account": B(account.encode()), "password": B(password.encode()), "events": evs, "scn": [("auto_connect", endian)] + [("att", f) for f in faults], "region_mode": False})
     traces += retry_after_failed_login(ctx)
+    traces += region_sequence_runs(ctx)
     return n, bad, traces
+
+
+def region_sequence_runs(ctx):
+    """Several discoveries in ONE process, with the built-in credentials of different regions and the same client factory: every discovery
+    must log in with the account of ITS region (the device is registered in that account only)."""
+    from msmart.cloud import NetHomePlusCloud
+    rng = ctx.rng
+    out = []
+    accounts = {a: p for a, p in NetHomePlusCloud.CLOUD_CREDENTIALS.values()}
+    srv = cloudsrv.ModelCloud("", "", rng=rng)
+    srv.accounts = accounts
+    cur = {}
+
+    def token_for(u, account):
+        lst = [{"udpId": "e" * 32, "token": "00" * 64, "key": "11" * 32}]
+        if u == cur["reg"] and account == cur["account"]:
+            lst.append({"udpId": u, "token": cur["tok"].hex(), "key": cur["key"].hex()})
+        else:
+            lst.append({"udpId": u, "token": "44" * 64, "key": "55" * 32})
+        return lst
+    srv.token_for = token_for
+    client = srv.client                      # the SAME factory object for every discovery
+    seq = ["US", "US", "DE", "KR", "US", "DE"] if ctx.quick else ["US", "US", "DE", "KR", "US", "DE"] * 6
+    for k, region in enumerate(seq):
+        ident = rand_identity(rng, typ=0xAC, port=6444, devid=rng.getrandbits(48) | (1 << 47))
+        ip = "10.11.%d.%d" % (k % 250, rng.randrange(1, 255))
+        tok, key = rng.randbytes(64), rng.randbytes(32)
+        endian = rng.choice(["little", "big"])
+        cur.update(reg=landev.udpid(ident["devid"].to_bytes(6, endian)).hex(), account=NetHomePlusCloud.CLOUD_CREDENTIALS[region][0], tok=tok, key=key)
+        state = dict(power=True, t2=rng.randrange(34, 61), mode=3)
+
+        def tcp(loop, net, state=state, tok=tok, key=key):
+            landev.LanDevice(loop, net, acdev.ACModel(state=state), version=3, token=tok, key=key, seed=k)
+        v = disc.run_discovery([(0.3, ip, 6445, build(rng, ident, ip, 3))], auto_connect=True, tcp_devices=tcp, cloud_client=client, region=region)
+        devs = v.pop("devices", [])
+        d0 = devs[0] if devs else None
+        e2e = {"ev": "e2e", "exc": v["exc"], "found": bool(d0 is not None),
+               "dev_token": B(bytes.fromhex(d0.token)) if d0 is not None and d0.token else [], "dev_key": B(bytes.fromhex(d0.key)) if d0 is not None and d0.key else [],
+               "reg_token": B(tok), "reg_key": B(key), "online": bool(d0 is not None and d0.online), "endian": endian, "faults": []}
+        out.append({"account": B(b""), "password": B(b""), "events": [e2e], "scn": [("discovery_in_region", region, k)], "region_mode": True})
+    return out
 
 
 def retry_after_failed_login(ctx):
